@@ -1,6 +1,6 @@
 #!/bin/sh
-# Builds the framework from files on disk only (offline): harness (both profiles), translator
-# output, Lean model + driver + every property module. Idempotent.
+# Builds the framework from files on disk only (offline): harness (both profiles), engine binary,
+# translator output, Lean model + driver + every property module. Idempotent.
 set -e
 cd "$(dirname "$0")/.."
 export CARGO_NET_OFFLINE=true
@@ -10,6 +10,7 @@ sys.path.insert(0, "tools")
 import vlib
 h = vlib.build_harness("checked")
 vlib.build_harness("fast")
+vlib.build_engine("release")
 changed, errs = vlib.run_translator(h)
 print("translator:", changed, errs)
 PY
